@@ -70,6 +70,7 @@ def order_rule(ctx, rid, check_info=True, only_cases=None):
     rr = ctx.rule(rid, "order alignment at every zip sink and of the flat result, for every configuration", floor=60)
     core = ctx.prog.need_func(CORE)
     n_cfg = 0
+    pending = None
     for val in core_valuations():
         if only_cases is not None and (truth(val["cases"]) is not only_cases):
             continue
@@ -124,11 +125,13 @@ def order_rule(ctx, rid, check_info=True, only_cases=None):
         else:
             # nested: placement is keyed by location, so alignment of the
             # dict(zip(locs, r)) sink is what matters; it must exist
-            zs = [s for s in inter.sinks if s[0].name == "process_results" and "locs" in norm(s[1])]
+            zs = [s for s in inter.sinks if "locs" in str(s[2][2]) or "locs" in str(s[3][2])]
             if not zs:
-                rr.bad(ctx.finding(rid, core, core.node, "nested output is not built from a location -> result mapping (%s)" % vt, construct="no-loc-mapping", path=vt), "loc mapping [%s]" % vt)
+                pending = pending or AnalysisError("idiom changed: the location -> result pairing of the nested output was not observed (%s); returned %r" % (vt, ret))
     ctx.extra["configurations_enumerated"] = ctx.extra.get("configurations_enumerated", 0) + n_cfg
     ctx.extra["exhaustive"] = True
+    if pending is not None and not rr.findings:
+        raise pending
     return rr
 
 
@@ -243,7 +246,19 @@ def exactly_once_rule(ctx, rid):
 def settings_construction_rule(ctx, rid):
     """C01.R3: how each kwargs dict and location is built."""
     rr = ctx.rule(rid, "settings construction: lock-step appends, kwargs = names x location + constants, [case, combo] order everywhere", floor=5)
-    core = ctx.prog.need_func(CORE)
+    core0 = ctx.prog.need_func(CORE)
+    core = core0
+    def _has_appends(fn):
+        ks = set()
+        for n in walk_shallow(fn.node):
+            if isinstance(n, ast.Expr) and isinstance(n.value, ast.Call) and isinstance(n.value.func, ast.Attribute) and n.value.func.attr == "append":
+                ks.add(path_key(n.value.func.value))
+        return {"locs", "settings"} <= ks
+    if not _has_appends(core0):
+        for fn in ctx.res.slice([core0]):
+            if fn.module is core0.module and fn is not core0 and _has_appends(fn):
+                core = fn
+    ctx.touch(core)
     g = build_cfg(core.node)
     # the two appends in one innermost loop body, unconditional
     apps = {}
@@ -340,7 +355,7 @@ def settings_construction_rule(ctx, rid):
     # [case, combo] concatenation order
     want = {"fn_args": ("case_args", "combo_args"), "all_combo_values": ("combos_cases", "combo_values")}
     for tgt, (l, r) in want.items():
-        ds = [v for _, v in assignments_to(core, tgt, g) if v is not None]
+        ds = [v for _, v in assignments_to(core, tgt, g) if v is not None] or [v for _, v in assignments_to(core0, tgt) if v is not None]
         if len(ds) != 1 or not (isinstance(ds[0], ast.BinOp) and isinstance(ds[0].op, ast.Add)):
             raise AnalysisError("idiom changed: %s is not a single concatenation (%s)" % (tgt, [norm(d) for d in ds]))
         got = (norm(ds[0].left), norm(ds[0].right))
@@ -349,92 +364,123 @@ def settings_construction_rule(ctx, rid):
         else:
             rr.ok("%s = %s + %s (case part first)" % (tgt, l, r))
     # case values are selected by name in the order of case_args (dict cases may be spelled in any key order)
-    cv = [v for _, v in assignments_to(core, "case_values", g) if v is not None and not isinstance(v, ast.Tuple) or (v is not None and isinstance(v, ast.Tuple) and v.elts and not isinstance(v.elts[0], ast.Tuple))]
+    cv = [v for _, v in (assignments_to(core0, "case_values") + (assignments_to(core, "case_values", g) if core is not core0 else [])) if v is not None and not isinstance(v, ast.Tuple) or (v is not None and isinstance(v, ast.Tuple) and v.elts and not isinstance(v.elts[0], ast.Tuple))]
     cvn = [norm(v) for v in cv]
     pat = "tuple((tuple((c[a] for a in case_args)) for c in cases))"
     if any(x == pat for x in cvn):
         rr.ok("case values are looked up by name in case_args order: %s" % pat)
     else:
         nd = cv[0] if cv else core.node
-        rr.bad(ctx.finding(rid, core, nd, "case values are not looked up by argument name in the order of case_args (found %s): cases spelled as dicts with a different key order are filed under the wrong coordinates" % cvn, construct="case-values-by-name"), "case values by name")
+        if any(".values()" in x for x in cvn):
+            rr.bad(ctx.finding(rid, core0, nd, "case values are taken positionally from each case dict (found %s) instead of being looked up by argument name in the order of case_args: cases spelled as dicts with a different key order are filed under the wrong coordinates" % cvn, construct="case-values-by-name"), "case values by name")
+        else:
+            raise AnalysisError("idiom changed: construction of case_values %s" % cvn)
     return rr
 
 
 def adapter_rule(ctx, rid):
-    """C01.R4: _submit / _get_result follow the three executor APIs."""
-    rr = ctx.rule(rid, "executor adapters: Pool packed, submit / ipyparallel apply_async unpacked, every branch returns or raises", floor=5)
+    """C01.R4: _submit / _get_result follow the three executor APIs.  Each
+    return of an executor call is classified by its *path condition* (the
+    outcomes of the dominating tests), so if/elif chains and guard clauses are
+    treated alike."""
+    rr = ctx.rule(rid, "executor adapters: Pool packed, submit / ipyparallel apply_async unpacked, every branch returns or raises", floor=4)
     sub = ctx.prog.need_func(CR + "._submit")
     ctx.touch(sub)
     need(sub.positional[:2] == ["executor", "fn"] and sub.has_varargs and sub.has_kwargs, "idiom changed: _submit signature")
     va, kw = sub.node.args.vararg.arg, sub.node.args.kwarg.arg
-    # walk the if / elif chain
-    branches = []
-    stmts = [s for s in sub.node.body if not (isinstance(s, ast.Expr) and isinstance(s.value, ast.Constant))]
-    cur = stmts[0] if stmts else None
-    need(isinstance(cur, ast.If), "idiom changed: _submit is not an if / elif chain")
-    while isinstance(cur, ast.If):
-        branches.append((cur.test, cur.body))
-        if len(cur.orelse) == 1 and isinstance(cur.orelse[0], ast.If):
-            cur = cur.orelse[0]
-        else:
-            branches.append((None, cur.orelse))
-            cur = None
-    seen_pool = False
-    kinds = []
-    for test, body in branches:
-        t = norm(test) if test is not None else None
-        last = body[-1] if body else None
-        if t is None:
-            if isinstance(last, ast.Raise):
-                rr.ok("_submit: unsupported executor raises")
-            else:
-                rr.bad(ctx.finding(rid, sub, last or sub.node, "the fall-through branch of _submit neither returns a future nor raises", construct="submit-fallthrough"), "fallthrough")
+    g = build_cfg(sub.node)
+
+    def classify(t):
+        tx = norm(t)
+        if "isinstance(executor" in tx and "Pool" in tx:
+            return "pool"
+        if tx == "hasattr(executor, 'submit')":
+            return "submit"
+        if tx == "hasattr(executor, 'apply_async')":
+            return "apply"
+        return None
+    tests = [n for n in g.nodes if n.kind == "test"]
+    for t in tests:
+        neg = False
+        e = t.ast
+        while isinstance(e, ast.UnaryOp) and isinstance(e.op, ast.Not):
+            neg = not neg
+            e = e.operand
+        if classify(e) is None:
+            raise AnalysisError("unrecognised executor test in _submit: %s" % norm(t.ast))
+    rets = [n for n in g.nodes if n.kind == "stmt" and isinstance(n.ast, ast.Return)]
+    kinds = set()
+    for r in rets:
+        call = r.ast.value
+        if not (isinstance(call, ast.Call) and isinstance(call.func, ast.Attribute) and norm(call.func.value) == "executor"):
+            rr.bad(ctx.finding(rid, sub, r.ast, "_submit returns `%s`, not the executor's call" % norm(r.ast.value), construct="submit-return " + norm(r.ast.value)[:40]), "branch returns")
             continue
-        if not (isinstance(last, ast.Return) and isinstance(last.value, ast.Call) and isinstance(last.value.func, ast.Attribute) and norm(last.value.func.value) == "executor"):
-            rr.bad(ctx.finding(rid, sub, last or test, "branch `%s` of _submit does not return the executor's call" % t, construct="submit-branch " + t), "branch returns")
-            continue
-        call = last.value
+        # path condition: for each test, which outcomes can reach r
+        cond = {}
+        for t in tests:
+            e = t.ast
+            neg = False
+            while isinstance(e, ast.UnaryOp) and isinstance(e.op, ast.Not):
+                neg = not neg
+                e = e.operand
+            k = classify(e)
+            outs = set()
+            for b_, l_ in g.succ[t.id]:
+                if l_ in ("t", "f") and (b_ == r.id or r.id in g.reachable(start=b_, skip_labels=("exc",))):
+                    outs.add((l_ == "t") != neg)
+            if t.id in g.reachable(skip_labels=("exc",)) and g.dominates(t.id, r.id) and len(outs) == 1:
+                cond[k] = outs.pop()
         meth = call.func.attr
         packed = [norm(a) for a in call.args] == ["fn", va, kw] and not call.keywords
         unpacked = [norm(a) for a in call.args] == ["fn", "*" + va] and [(k.arg, norm(k.value)) for k in call.keywords] == [(None, kw)]
-        is_pool = "isinstance(executor" in t and "Pool" in t
-        has_submit = t == "hasattr(executor, 'submit')"
-        has_apply = t == "hasattr(executor, 'apply_async')"
-        if is_pool:
-            seen_pool = True
-            kinds.append("pool")
+        if cond.get("pool") is True:
+            kinds.add("pool")
             if meth == "apply_async" and packed:
                 rr.ok("multiprocessing Pool: apply_async(fn, args, kwds) (packed)")
             else:
                 rr.bad(ctx.finding(rid, sub, call, "a multiprocessing.pool.Pool must be called as apply_async(fn, args, kwds); found %s" % norm(call), construct="pool-call"), "pool packed")
-        elif has_submit:
-            kinds.append("submit")
+        elif cond.get("submit") is True:
+            kinds.add("submit")
             if meth == "submit" and unpacked:
                 rr.ok("concurrent.futures style: submit(fn, *args, **kwds)")
             else:
                 rr.bad(ctx.finding(rid, sub, call, "a submit-style executor must be called as submit(fn, *args, **kwds); found %s" % norm(call), construct="submit-call"), "submit unpacked")
-        elif has_apply:
-            kinds.append("apply")
-            if not seen_pool:
-                rr.bad(ctx.finding(rid, sub, test, "the generic apply_async branch is tested before / without the multiprocessing.pool.Pool branch: Pools (packed arguments) and ipyparallel views (unpacked arguments) share the method name but not the signature", construct="apply-before-pool"), "pool before apply_async")
+        elif cond.get("apply") is True:
+            kinds.add("apply")
+            if cond.get("pool") is not False:
+                rr.bad(ctx.finding(rid, sub, call, "the generic apply_async branch is reached without the multiprocessing.pool.Pool case having been excluded first: Pools (packed arguments) and ipyparallel views (unpacked arguments) share the method name but not the signature", construct="apply-before-pool"), "pool before apply_async")
             if meth == "apply_async" and unpacked:
-                rr.ok("ipyparallel style: apply_async(fn, *args, **kwds) (unpacked), after the Pool test")
+                rr.ok("ipyparallel style: apply_async(fn, *args, **kwds) (unpacked), with the Pool case excluded")
             else:
                 rr.bad(ctx.finding(rid, sub, call, "an ipyparallel-style view must be called as apply_async(fn, *args, **kwds) (unpacked); found %s" % norm(call), construct="apply-call"), "apply unpacked")
         else:
-            raise AnalysisError("unrecognised executor test in _submit: %s" % t)
+            # an unconditional / differently guarded executor call
+            if meth == "apply_async" and packed:
+                kinds.add("pool")
+                rr.bad(ctx.finding(rid, sub, call, "`%s` (packed arguments, the multiprocessing.Pool convention) is used for executors that are not known to be a Pool: an ipyparallel-style view receives (args, kwds) as two positional arguments" % norm(call), construct="apply-call"), "apply unpacked")
+            else:
+                raise AnalysisError("executor call with unrecognised guard in _submit: %s" % norm(call))
     for k in ("pool", "submit", "apply"):
         if k not in kinds:
             rr.bad(ctx.finding(rid, sub, sub.node, "_submit has no branch for the %s executor API (documented as supported)" % {"pool": "multiprocessing.pool.Pool", "submit": "submit-style", "apply": "ipyparallel apply_async"}[k], construct="missing-branch " + k), "branch %s" % k)
+    # falling through all tests raises
+    if g.exit.id in g.reachable(blocked_nodes=[r.id for r in rets], skip_labels=("exc",)):
+        rr.bad(ctx.finding(rid, sub, sub.node, "_submit can fall through without returning a future or raising", construct="submit-fallthrough"), "fallthrough")
+    else:
+        rr.ok("_submit: an unsupported executor raises")
     gr = ctx.prog.need_func(CR + "._get_result")
     ctx.touch(gr)
-    g = build_cfg(gr.node)
-    rets = [n for n in g.nodes if n.kind == "stmt" and isinstance(n.ast, ast.Return)]
-    txt = sorted(norm(n.ast.value) for n in rets if n.ast.value is not None)
-    if txt == ["future.get()", "future.result()"] and g.exit.id not in g.reachable(blocked_nodes=[n.id for n in rets]):
-        rr.ok("_get_result: result() / get() or raise; no fall-through")
+    g2 = build_cfg(gr.node)
+    rets2 = [n for n in g2.nodes if n.kind == "stmt" and isinstance(n.ast, ast.Return)]
+    bad2 = [n for n in rets2 if not (isinstance(n.ast.value, ast.Call) and "future" in names_in(n.ast.value))]
+    if bad2:
+        rr.bad(ctx.finding(rid, gr, bad2[0].ast, "_get_result returns `%s`, not the future's result" % norm(bad2[0].ast.value), construct="get-result"), "get_result")
+    elif g2.exit.id in g2.reachable(blocked_nodes=[n.id for n in rets2], skip_labels=("exc",)):
+        rr.bad(ctx.finding(rid, gr, gr.node, "_get_result can fall through returning None for a future with neither result() nor get()", construct="get-result-fallthrough"), "get_result")
+    elif rets2:
+        rr.ok("_get_result returns the future's result() / get() or raises")
     else:
-        rr.bad(ctx.finding(rid, gr, gr.node, "_get_result does not return future.result() / future.get() on every non-raising path (returns: %s)" % txt, construct="get-result"), "get_result")
+        raise AnalysisError("idiom changed: _get_result")
     return rr
 
 
@@ -602,11 +648,14 @@ def placeholder_rule(ctx, rid):
     rr = ctx.rule(rid, "cases: union coordinates + placeholder from an existing result; exported labels = layout values", floor=5)
     core = ctx.prog.need_func(CORE)
     pr = core.nested.get("process_results")
-    need(pr is not None, "anchor lost: process_results closure")
+    if pr is None:
+        cands = [fn for fn in ctx.res.slice([core]) if fn.module is core.module and fn is not core and any(nm == CR + "._unflatten" for _, _, nm in all_calls(ctx, fn))]
+        need(len(cands) == 1, "anchor lost: the function nesting the results (calls _unflatten)")
+        pr = cands[0]
     ctx.touch(pr)
     from ..flow import Flow
     g = build_cfg(pr.node)
-    fl = Flow(g, {"flat": FALSE, "cases": TRUTHY}).run()
+    fl = Flow(g, {"flat": FALSE, "cases": TRUTHY, "has_cases": TRUE}).run()
     uf = [(n, c) for n, c, nm in all_calls(ctx, pr, g) if nm == CR + "._unflatten" and n.id in fl.visited]
     if len(uf) != 1:
         rr.bad(ctx.finding(rid, pr, pr.node, "with cases and nested output %d _unflatten calls are reachable" % len(uf), construct="unflatten-count"), "one unflatten")
@@ -629,7 +678,7 @@ def placeholder_rule(ctx, rid):
         else:
             rr.bad(ctx.finding(rid, pr, src, "the placeholder is not derived from an already computed result (`%s`)" % norm(src), construct="placeholder-source"), "placeholder source")
     # no cases: full grid, no placeholder
-    fl2 = Flow(g, {"flat": FALSE, "cases": FALSY}).run()
+    fl2 = Flow(g, {"flat": FALSE, "cases": FALSY, "has_cases": FALSE}).run()
     uf2 = [(n, c) for n, c, nm in all_calls(ctx, pr, g) if nm == CR + "._unflatten" and n.id in fl2.visited]
     if len(uf2) == 1 and norm(arg(uf2[0][1], 1)) == "combo_values":
         rr.ok("no cases: _unflatten(..., combo_values)")
@@ -646,6 +695,11 @@ def placeholder_rule(ctx, rid):
         rr.bad(ctx.finding(rid, core, st[0].ast if st else core.node, "the coordinate labels exported in info are not the values the nested layout was built from", construct="info-labels"), "info labels")
     # union accumulation: unconditional add, sorted with fallback
     adds = [nd for nd in g0.nodes if nd.kind == "stmt" and norm(nd.ast).startswith("case_coords[") and ".add(" in norm(nd.ast)]
+    if not adds:
+        for fn in ctx.res.slice([core]):
+            if fn.module is core.module and fn is not core:
+                gg = build_cfg(fn.node)
+                adds = adds or [nd for nd in gg.nodes if nd.kind == "stmt" and norm(nd.ast).startswith("case_coords[") and ".add(" in norm(nd.ast)]
     if len(adds) == 1 and isinstance(getattr(adds[0].ast, "_parent", None), ast.For) and norm(getattr(adds[0].ast, "_parent").iter) == "zip(case_args, case_params)":
         rr.ok("every case value is added to its argument's union unconditionally")
     else:
@@ -681,7 +735,16 @@ def dispatch_rule(ctx, rid):
                     rr.bad(ctx.finding(rid, pcs, t, "`%s` decides 'single value per case' by iterability alone, but str is iterable: a string case such as 'h2o' is split into characters and zipped against the argument names" % norm(t),
                                        construct="scalar-test-without-str"), "parse_cases str")
     if not found:
-        raise AnalysisError("idiom changed: parse_cases scalar-case test not found")
+        # other spellings (named flags, De Morgan): the str test and the iterability test must both be present
+        txt = " ".join(norm(x) for x in pcs.node.body)
+        m_it = "isiterable(" in txt
+        m_str = ("isinstance(cases[0], str)" in txt) or ("isinstance(first_case, str)" in txt) or (", str)" in txt and "isinstance(" in txt)
+        if m_it and m_str:
+            rr.ok("parse_cases: scalar-case decision uses both the str test and iterability (other spelling)")
+        elif m_it and not m_str:
+            rr.bad(ctx.finding(rid, pcs, pcs.node, "parse_cases decides 'single value per case' by iterability alone, but str is iterable: a string case such as 'h2o' is split into characters", construct="scalar-test-without-str"), "parse_cases str")
+        else:
+            raise AnalysisError("idiom changed: parse_cases scalar-case test not found")
     nlr = prog.need_func(CR + ".nan_like_result")
     ctx.touch(nlr)
     g = build_cfg(nlr.node)
@@ -730,20 +793,20 @@ def row_pairing_rule(ctx, rid, entry=TO_DS, flags=None, title=None):
         if fl.cfg.exit.id not in fl.IN:
             rr.ok("[%s]: rejected before running" % vt)
             continue
-        df_sinks = [s for s in inter.sinks if s[0].name == "results_to_df"]
+        df_sinks = [s for s in inter.sinks if s[0].name == "results_to_df" or (s[0].parent is None and "settings" in (str(s[2][2]), str(s[3][2])))]
         for (sfi, call, a, b, ok, st) in inter.sinks:
             if a[1] == "UNK" or b[1] == "UNK":
                 raise AnalysisError("unrecognised sequence transformation reaches `%s` in %s [%s]" % (norm(call), sfi.qualname, vt))
             if not ok:
-                if sfi.name == "results_to_df":
+                if (sfi, call, a, b, ok, st) in df_sinks:
                     msg = "each DataFrame row pairs a setting taken in %s with a result taken in %s (%s): the row's arguments and outputs belong to different evaluations" % (describe_order(a[1]), describe_order(b[1]), vt)
                 else:
                     msg = "`%s` pairs %s with %s (%s)" % (norm(call), describe_order(a[1]), describe_order(b[1]), vt)
                 rr.bad(ctx.finding(rid, sfi, call, msg, construct="misaligned " + norm(call), path=vt), "%s `%s` [%s]" % (sfi.name, norm(call)[:30], vt))
-            elif sfi.name == "results_to_df":
-                rr.ok("results_to_df `%s` aligned [%s]" % (norm(call), vt))
+            elif (sfi, call, a, b, ok, st) in df_sinks:
+                rr.ok("%s `%s` aligned [%s]" % (sfi.name, norm(call), vt))
         if truth(val["to_df"]) and not df_sinks:
-            rr.bad(ctx.finding(rid, f, f.node, "with to_df the rows are not built by pairing the recorded settings with the flat results (%s)" % vt, construct="no-row-pairing", path=vt), "row pairing exists [%s]" % vt)
+            raise AnalysisError("idiom changed: with to_df no pairing of the recorded settings with the flat results was observed in results_to_df (%s)" % vt)
         for (mfi, e, base, key, why, st) in inter.missing_keys:
             if base == "info":
                 rr.bad(ctx.finding(rid, mfi, e, "`%s` is read while `info` is %s (%s): the labelling side channel was not requested / not filled in this configuration" % (norm(e), why, vt),
@@ -768,10 +831,31 @@ def dims_rule(ctx, rid):
     c = dsc[0]
     coords = arg(c, None, "coords")
     dv = arg(c, None, "data_vars")
-    if coords is not None and norm(coords) == "{**dict(combos), **dict(var_coords)}":
-        rr.ok("coords = combos then var_coords")
+    cn = set()
+    if coords is not None:
+        todo, seen = [coords], set()
+        while todo:
+            ex = todo.pop()
+            for nm_ in names_in(ex):
+                if nm_ in seen:
+                    continue
+                seen.add(nm_)
+                cn.add(nm_)
+                for _, v in assignments_to(f, nm_):
+                    if v is not None:
+                        todo.append(v)
+                for st_ in walk_shallow(f.node):
+                    if isinstance(st_, ast.Expr) and isinstance(st_.value, ast.Call) and isinstance(st_.value.func, ast.Attribute) and norm(st_.value.func.value) == nm_ and st_.value.func.attr == "update":
+                        todo += list(st_.value.args)
+    if coords is not None and {"combos", "var_coords"} <= cn:
+        rr.ok("coords are built from combos and var_coords")
+    elif coords is not None and "combos" not in cn:
+        rr.bad(ctx.finding(rid, f, coords, "Dataset coordinates are not built from the swept combos: %s" % norm(coords), construct="coords"), "coords")
     else:
-        rr.bad(ctx.finding(rid, f, coords or c, "Dataset coordinates are not {**dict(combos), **dict(var_coords)}: %s" % (norm(coords) if coords else None), construct="coords"), "coords")
+        raise AnalysisError("idiom changed: coords of the Dataset in results_to_ds")
+    if isinstance(dv, ast.Name):
+        dd = [v for _, v in assignments_to(f, dv.id) if v is not None]
+        dv = dd[0] if len(dd) == 1 else dv
     if isinstance(dv, ast.DictComp) and len(dv.generators) == 1:
         gen = dv.generators[0]
         it_ok = norm(gen.iter) == "zip(results, var_names)" and norm(gen.target) == "(data, name)" and not gen.ifs
@@ -892,17 +976,16 @@ def resources_rule(ctx, rid):
     df = prog.need_func(CR + ".results_to_df")
     ctx.touch(df)
     g = build_cfg(df.node)
-    pops = [n for n in g.nodes if n.kind == "stmt" and norm(n.ast) == "row.pop(k, None)"]
     ok = False
-    if len(pops) == 1:
-        lp = getattr(pops[0].ast, "_parent", None)
-        row_lp = getattr(lp, "_parent", None)
-        if isinstance(lp, ast.For) and norm(lp.iter) == "resources" and isinstance(row_lp, ast.For) and lp in row_lp.body:
-            ok = True
+    for fn in [df] + [x for x in ctx.res.slice([df]) if x.module is df.module and x is not df]:
+        for lp in ast.walk(fn.node):
+            if isinstance(lp, ast.For) and norm(lp.iter) == "resources" and len(lp.body) == 1 and isinstance(lp.body[0], ast.Expr) and isinstance(lp.body[0].value, ast.Call) \
+                    and isinstance(lp.body[0].value.func, ast.Attribute) and lp.body[0].value.func.attr == "pop" and lp.body[0].value.args and norm(lp.body[0].value.args[0]) == norm(lp.target):
+                ok = True
     if ok:
-        rr.ok("results_to_df pops every resource key from every row, unconditionally")
+        rr.ok("every resource key is popped from every row (for k in resources: row.pop(k, ...))")
     else:
-        rr.bad(ctx.finding(rid, df, df.node, "results_to_df no longer removes every resource key from every row", construct="df-pop-resources"), "df pops")
+        rr.bad(ctx.finding(rid, df, df.node, "results_to_df (and its helpers) no longer remove the resource keys from the rows: resources are recorded in the DataFrame", construct="df-pop-resources"), "df pops")
     return rr
 
 
